@@ -24,6 +24,12 @@ SPEC = dict(
           "modes x {no list, first line starts with '- ', every line starts with '- '}. rand: indent 0..12 (usage-like 13..46 for a third of the wide blocks), length 20..100 "
           "(30%: 60..239), 0..60 random words whose lengths are steered to end one before / at / one after the width, "
           "list lines ('- x' and '-x'), newlines (rarely doubled), ' nn ' tokens inside and outside list lines. "
+          "usage: the text block as argument_desc.cpp uses it - a Handler with 1..8 arguments (keys of 1..46 characters "
+          "around the same-line threshold 40, hidden / deprecated / mandatory, descriptions of 1..40 unique words, rarely a "
+          "word of 30..89 characters), usage line length default or 60..239, usage printed through -h/--help after any "
+          "combination of --print-hidden / --print-deprecated / --help-short / --help-long; U1 a usage line longer than the "
+          "line length holds, besides the key that starts it, at most one word; U2 the words of each displayed description "
+          "appear exactly once and in order, those of a suppressed argument never. "
           "distinct_nontrivial = distinct (configuration, text) with at least one word - by construction in exh, by hash "
           "in rand."),
     assumptions=["'word' = maximal run of characters other than blank and newline; 'nn' is a token only as a whole word",
@@ -43,6 +49,10 @@ SPEC = dict(
              require_stats=["P1.words_compared", "P2.lines_indented", "P2.first_line_unindented", "P3.newlines_checked",
                             "P4.lines_exactly_width", "P4.overlong_single_word_lines", "P5.nn_breaks_checked",
                             "output.list_continuation_lines_several_words", "texts_with_automatic_wrap"],
+             timeout=7200),
+        dict(name="usage", flavour="asan", cases={"quick": 40000, "thorough": 2000000},
+             require_stats=["usage.lines", "usage.lines_exactly_line_length", "usage.overlong_single_word_lines", "usage.words_compared",
+                            "usage.descriptions_suppressed", "usage.wide_usages"],
              timeout=7200),
     ],
 )
